@@ -242,7 +242,10 @@ def run_case(case, cpu_budget=120.0, record_args=False, delay=None, workdir=None
                 kw["mode"] = case["mode"]
             if case.get("workers") is not None:
                 kw["workers"] = case["workers"]
-            result = opt.optimize(task, **kw)
+            if len(kw) == 2 and int(spec.get("seed") or 0) % 2 == 1:
+                result = opt.optimize(task, kw["mode"], kw["workers"])     # the documented positional form
+            else:
+                result = opt.optimize(task, **kw)
         obs["outcome"] = "ok"
     except CaseTimeout:
         obs["outcome"] = "timeout"
